@@ -1,4 +1,6 @@
 """C38 — hy.gensym: lock discipline around the shared counter, reserved prefix, mangled result."""
+CANON = True
+
 import re
 
 REL = "hy/core/util.hy"
